@@ -155,6 +155,15 @@ func rawFor(kind, uname, size string, seed int64) []RawKey {
 				u = append(u, mk(0x5a, l, true))
 			}
 			u = append(u, mk(0x3c, 9, true))
+			// stored tuples that leave the shared path EARLY (inside the inline bytes, at its edge, just beyond it): the split
+			// pushes a node down whose remaining path must be re-derived from a leaf, not shifted within the inline array
+			for _, pos := range []int{2, 9, 11} {
+				if pos < w-1 {
+					k := mk(0x3c, 1, false)
+					k.B[pos] = 0x77
+					u = append(u, k)
+				}
+			}
 			return u
 		}
 		if uname == "tuplefan" {
